@@ -21,6 +21,7 @@ RULE = (
     "some score lies outside [0,1] (boundary values 0, 1, -0.0, +-1 ulp, float32/int dtypes), and nothing else is raised. W1: in-range score "
     "classes (uniform, lattice k/5, boundary-heavy, empty classes), easy counts, both score classes, out-of-range injections. Non-trivial: at "
     "least one scored sample; distinct = hash of inputs."
+    ' Build-phase additions: boolean/float/empty-string labels either way round, 2-d label arrays, == / != against other Scores objects, one set of a million scores per class per run.'
 )
 ASSUMPTIONS = ["finite scores", "the heuristic score_class warning is not part of the property and is silenced"]
 METRICS = ["tpr", "fnr", "tnr", "fpr", "topr", "tonr"]
